@@ -113,6 +113,13 @@ func BuildWorld(cfg WorldConfig) (*World, error) {
 	return w, nil
 }
 
+// LoadWorld wraps a data directory kept from an earlier run (replays): only Dir, Opts and Chain are
+// set, which is what starting a node on a copy needs
+func LoadWorld(dir string, opts node.Options) *World {
+	o := opts
+	return &World{Dir: dir, Opts: opts, Chain: o.Chain(), KV: map[string]map[string]string{}, Encoded: map[string]string{}}
+}
+
 // Remove deletes the template directory
 func (w *World) Remove() { os.RemoveAll(w.Dir) }
 
